@@ -11,22 +11,961 @@ open SpsdkVerif.Generated.MbiClasses (MixinName Method Attr provider attrs prePa
 
 variable {co : CryptoOps} {env : Env} {c : Cls} {cfg : Cfg} {signer : Signer}
 
+/-- what `ClassWF` says about a class of the plain family -/
+structure PlainCls (c : Cls) : Prop where
+  himgType : c.imageType ≤ imageTypeMask
+  htzSize : c.tzSize % 4 = 0
+  hivt : c.hasAttr .ivt_table = true
+  hclean : c.hasAttr .clean_ivt = true
+  hApp : c.has .Mbi_MixinApp = true
+  happTable : c.hasAttr .app_table = c.has .Mbi_MixinRelocTable
+  hdis : c.hasAttr .disassembly_app_data = c.has .Mbi_MixinRelocTable
+  hla : c.hasAttr .load_address = c.has .Mbi_MixinLoadAddress
+  hsub : c.hasAttr .image_subtype = c.has .Mbi_MixinImageSubType
+  hver : c.hasAttr .image_version = c.has .Mbi_MixinImageVersion
+  hv2t : c.hasAttr .image_version_to_image_type = c.has .Mbi_MixinImageVersion
+  hhw : c.hasAttr .user_hw_key_enabled = c.has .Mbi_MixinHwKey
+  hks : c.hasAttr .key_store = false
+  hhmac : c.hasAttr .hmac_key = false
+  hbca : c.hasAttr .bca = false
+  hfcf : c.hasAttr .fcf = false
+  hdisasm : c.resolve .disassemble_image = c.resolve .collect_data
+  henc : c.resolve .encrypt = none
+  hpenc : c.resolve .post_encrypt = none
+  hfin : c.resolve .finalize = none
+  hsign : c.signKind = .none ∨ c.signKind = .crc
+  hcrc : c.signKind = .crc ↔ c.imageType ≠ 0
+  hcert : c.hasAttr .cert_block = false
+  hnoHmac : c.has .Mbi_MixinHmac = false
+  hnoKs : c.has .Mbi_MixinKeyStore = false
+  hmk : c.manifestKind = none
+  hnoCtr : c.has .Mbi_MixinCtrInitVector = false
+  hcoll : c.resolve .collect_data = some .Mbi_ExportMixinApp ∧ c.has .Mbi_MixinTrustZone = false
+        ∨ c.resolve .collect_data = some .Mbi_ExportMixinAppTrustZone ∧ c.has .Mbi_MixinTrustZone = true
+  hlen : lenProvidersAre c.lenProviders ([.Mbi_MixinApp] ++ optList (c.has .Mbi_MixinRelocTable) .Mbi_MixinRelocTable
+            ++ optList (c.has .Mbi_MixinTrustZone) .Mbi_MixinTrustZone) = true
+
+theorem plainCls (h : ClassWF c = true) (hf : c.family = some .plain) : PlainCls c := by
+  unfold ClassWF at h
+  simp only [Bool.and_eq_true, hf] at h
+  obtain ⟨⟨⟨⟨⟨⟨⟨⟨⟨⟨⟨⟨⟨⟨⟨⟨⟨⟨⟨⟨⟨a1, a2⟩, a3⟩, a4⟩, a5⟩, a6⟩, a7⟩, a8⟩, a9⟩, a10⟩, a11⟩, a12⟩, a13⟩, a14⟩, a15⟩, a16⟩, a17⟩,
+    a18⟩, a19⟩, a20⟩, a21⟩, ⟨⟨⟨⟨⟨⟨⟨⟨⟨⟨⟨⟨b1, b2⟩, b3⟩, b4⟩, b5⟩, b6⟩, b7⟩, b8⟩, b9⟩, b10⟩, b11⟩, b12⟩, b13⟩⟩ := h
+  have hmk : c.manifestKind = none := by simpa using b10
+  have hnoHmac : c.has .Mbi_MixinHmac = false := by simpa using b8
+  have hnoKs : c.has .Mbi_MixinKeyStore = false := by simpa using b9
+  rw [hmk] at b12 b13
+  simp only [Option.isNone_none, Bool.and_true] at b12 b13
+  refine { himgType := by simpa using a1, htzSize := by simpa using a2, hivt := a3, hclean := a4, hApp := a6,
+           happTable := by simpa using a11, hdis := by simpa using a12, hla := by simpa using a13,
+           hsub := by simpa using a14, hver := by simpa using a15, hv2t := by simpa using a16,
+           hhw := by simpa using a17, hks := by simpa [hnoKs] using a18, hhmac := by simpa [hnoHmac] using a19,
+           hbca := by simpa using a20, hfcf := by simpa using a21, hdisasm := by simpa using b1,
+           henc := by simpa using b2, hpenc := by simpa using b3, hfin := by simpa using b4,
+           hsign := by simpa using b5, hcrc := ?_, hcert := by simpa using b7, hnoHmac := hnoHmac, hnoKs := hnoKs,
+           hmk := hmk, hnoCtr := by simpa using b11, hcoll := ?_, hlen := b13 }
+  · rw [beq_iff_eq] at b6
+    by_cases hs : c.signKind = .crc
+    · rw [hs] at b6; simp only [beq_self_eq_true] at b6
+      have : c.imageType ≠ 0 := by simpa using b6.symm
+      exact ⟨fun _ => this, fun _ => hs⟩
+    · have h1 : (c.signKind == SignKind.crc) = false := by simpa using hs
+      rw [h1] at b6
+      have : c.imageType = 0 := by simpa using b6.symm
+      exact ⟨fun h => absurd h hs, fun h => absurd this h⟩
+  · clear a8 a9 a10 b13
+    unfold Cls.family at hf
+    by_cases htz : c.has .Mbi_MixinTrustZone = true
+    · rw [htz] at b12; right; exact ⟨by simpa using b12, htz⟩
+    · have htz' : c.has .Mbi_MixinTrustZone = false := by simpa using htz
+      rw [htz'] at b12
+      left; refine ⟨?_, htz'⟩
+      have hne : c.resolve .collect_data ≠ some .Mbi_ExportMixinAppTrustZone := by simpa using b12
+      split at hf
+      · assumption
+      · contradiction
+      all_goals simp at hf
+
+/-! ### mixin-level facts (decided over the 40 mixin names) -/
+
+theorem plain_has_hasAttr (base : MixinName) (a : Attr)
+    (hd : ∀ m, derivesFrom m base = true → (attrs m).contains a = true) (h : c.has base = true) : c.hasAttr a = true := by
+  unfold Cls.has at h; unfold Cls.hasAttr
+  rw [List.any_eq_true] at h ⊢
+  obtain ⟨m, hm, hb⟩ := h
+  exact ⟨m, hm, hd m hb⟩
+
+theorem plain_has_false_of_hasAttr (base : MixinName) (a : Attr)
+    (hd : ∀ m, derivesFrom m base = true → (attrs m).contains a = true) (h : c.hasAttr a = false) : c.has base = false := by
+  cases hb : c.has base
+  · rfl
+  · rw [plain_has_hasAttr base a hd hb] at h; exact absurd h (by simp)
+
+/-- what `cfgWF` says for a class of the plain family -/
+structure PlainCfg (c : Cls) (cfg : Cfg) : Prop where
+  hval : validate c cfg = .ok ()
+  hpack : packGuard c cfg = .ok ()
+  hla : cfg.loadAddress < 2 ^ 32
+  hiv : cfg.imageVersion < 2 ^ 16
+  hst : cfg.subType ≤ subTypeMask
+  hflags : flagsOf c cfg < 2 ^ 32
+  htz : ∀ d, cfg.tz = .custom d → d.length = c.tzSize ∧ c.tzSize > 0
+  hnotz : c.hasTrustZone = false → cfg.tz = .enabled
+  hreloc : ∀ es, cfg.reloc = some es → (∀ e ∈ es, relocEntryOk e = true) ∧ c.has .Mbi_MixinRelocTable = true ∧ es ≠ []
+  hks : cfg.keyStore = none
+  hhmac : cfg.hmacKey = none
+  hbca : cfg.bca = none
+  hfcf : cfg.fcf = none
+  hcert : cfg.cert = []
+  hsigLen : cfg.sigLen = 0
+  hdigest : cfg.digest = none
+  hfw : cfg.fwVersion = 0
+  hnoIv : c.has .Mbi_MixinImageVersion = false → cfg.imageVersion = 0
+  hnoSub : c.has .Mbi_MixinImageSubType = false → cfg.subType = 0
+  hnoHw : c.has .Mbi_MixinHwKey = false → cfg.hwKey = false
+  hnoLa : c.has .Mbi_MixinLoadAddress = false → cfg.loadAddress = 0
+  hctr : cfg.ctrIv = []
+
+theorem plainCfg (hc : PlainCls c) (h : cfgWF c cfg = true) : PlainCfg c cfg := by
+  unfold cfgWF at h
+  simp only [Bool.and_eq_true] at h
+  obtain ⟨⟨⟨⟨⟨⟨⟨⟨⟨⟨⟨⟨⟨⟨⟨⟨⟨⟨⟨⟨⟨⟨⟨⟨⟨⟨a1, a2⟩, a3⟩, a4⟩, a5⟩, a6⟩, a7⟩, a8⟩, a9⟩, a10⟩, a11⟩, a12⟩, a13⟩, a14⟩, a15⟩, a16⟩, a17⟩,
+    a18⟩, a19⟩, a20⟩, a21⟩, a22⟩, a23⟩, a24⟩, a25⟩, a26⟩, a27⟩ := h
+  have hV1 : c.has .Mbi_MixinCertBlockV1 = false :=
+    plain_has_false_of_hasAttr .Mbi_MixinCertBlockV1 .cert_block (by intro m; cases m <;> decide) hc.hcert
+  have hV21 : c.has .Mbi_MixinCertBlockV21 = false :=
+    plain_has_false_of_hasAttr .Mbi_MixinCertBlockV21 .cert_block (by intro m; cases m <;> decide) hc.hcert
+  simp only [hV1, hV21, hc.hmk, hc.hnoCtr, hc.hnoHmac, hc.hnoKs] at *
+  refine { hval := by simpa using a1, hpack := by simpa using a2, hla := by simpa using a3, hiv := by simpa using a4,
+           hst := by simpa using a5, hflags := by simpa using a7, htz := ?_, hnotz := by intro hh; simpa [hh] using a9, hreloc := ?_,
+           hks := ?_, hhmac := ?_, hbca := by simpa using a15, hfcf := by simpa using a16,
+           hcert := (by simpa using a19 : _ ∧ _).1, hsigLen := (by simpa using a19 : _ ∧ _).2,
+           hdigest := by simpa using a20, hfw := by simpa using a22,
+           hnoIv := by intro hh; simpa [hh] using a23, hnoSub := by intro hh; simpa [hh] using a24, hnoHw := by intro hh; simpa [hh] using a25,
+           hnoLa := by intro hh; simpa [hh] using a26, hctr := by simpa using a27 }
+  · intro d hd; rw [hd] at a8; simpa using a8
+  · intro es hes; rw [hes] at a10
+    simp only [Bool.and_eq_true, List.all_eq_true, Bool.not_eq_true', List.isEmpty_eq_false_iff] at a10
+    exact ⟨a10.1.1, a10.1.2, a10.2⟩
+  · cases hk : cfg.keyStore with
+    | none => rfl
+    | some k => rw [hk] at a11; simp at a11
+  · cases hk : cfg.hmacKey with
+    | none => rfl
+    | some k => rw [hk] at a12; simp at a12
+
+
+
+theorem plain_hasAttr_has (base : MixinName) (a : Attr)
+    (hd : ∀ m, (attrs m).contains a = true → derivesFrom m base = true) (h : c.hasAttr a = true) : c.has base = true := by
+  unfold Cls.hasAttr at h; unfold Cls.has
+  rw [List.any_eq_true] at h ⊢
+  obtain ⟨m, hm, hb⟩ := h
+  exact ⟨m, hm, hd m hb⟩
+
+theorem plain_hasTrustZone (c : Cls) : c.hasTrustZone = c.has .Mbi_MixinTrustZone := by
+  unfold Cls.hasTrustZone
+  cases hb : c.has .Mbi_MixinTrustZone
+  · cases ha : c.hasAttr .trust_zone
+    · rfl
+    · rw [plain_hasAttr_has .Mbi_MixinTrustZone .trust_zone (by intro m; cases m <;> decide) ha] at hb
+      exact absurd hb (by simp)
+  · simp
+
+theorem plain_tz_nil (hk : PlainCfg c cfg) (h : c.has .Mbi_MixinTrustZone = false) : cfg.tz.bytes = [] := by
+  rw [hk.hnotz (by rw [plain_hasTrustZone]; exact h)]; rfl
+
+theorem plain_reloc_none (hk : PlainCfg c cfg) (h : c.has .Mbi_MixinRelocTable = false) : cfg.reloc = none := by
+  cases hr : cfg.reloc with
+  | none => rfl
+  | some es => have := (hk.hreloc es hr).2.1; rw [h] at this; exact absurd this (by simp)
+
+theorem plain_totalLen_exp (c : Cls) (cfg : Cfg) (exp : List MixinName) (h : lenProvidersAre c.lenProviders exp = true) :
+    totalLen c cfg = (exp.map (mixLenOf c cfg)).sum := by
+  rw [← sum_of_lenProvidersAre _ _ (mixLenOf c cfg) h]
+  unfold totalLen Cls.lenProviders
+  rw [List.map_map]
+  rfl
+
+theorem plain_totalLen (hc : PlainCls c) (hk : PlainCfg c cfg) :
+    totalLen c cfg = (((appData cfg).length + relocLen c cfg + cfg.tz.bytes.length : Nat) : Int) := by
+  rw [plain_totalLen_exp c cfg _ hc.hlen]
+  cases hr : c.has .Mbi_MixinRelocTable <;> cases ht : c.has .Mbi_MixinTrustZone
+  · have h1 := plain_tz_nil hk ht
+    have h2 := plain_reloc_none hk hr
+    simp [optList, mixLenOf, h1, relocLen, h2]
+  · have h2 := plain_reloc_none hk hr
+    simp [optList, mixLenOf, relocLen, h2]
+  · have h1 := plain_tz_nil hk ht
+    simp [optList, mixLenOf, h1]
+  · simp [optList, mixLenOf]; omega
+
+
+
+theorem plain_forM_ok {α : Type} (f : α → PyRes Unit) :
+    ∀ l : List α, l.forM f = .ok () → ∀ m ∈ l, f m = .ok ()
+  | [], _, m, hm => by simp at hm
+  | a :: l, h, m, hm => by
+    have h : (do f a; l.forM f) = Except.ok () := h
+    cases hfa : f a with
+    | error e => rw [hfa] at h; simp [bind, Except.bind] at h
+    | ok u =>
+      rw [hfa] at h
+      simp only [bind, Except.bind] at h
+      rcases List.mem_cons.mp hm with rfl | hm'
+      · exact hfa
+      · exact plain_forM_ok f l h m hm'
+
+theorem plain_app_mem (hc : PlainCls c) : MixinName.Mbi_MixinApp ∈ c.dataMixins := by
+  have h := hc.hApp
+  unfold Cls.has at h
+  rw [List.any_eq_true] at h
+  obtain ⟨m, hm, hb⟩ := h
+  have : m = .Mbi_MixinApp := by revert hb; cases m <;> decide
+  subst this
+  unfold Cls.dataMixins
+  exact List.mem_filter.mpr ⟨hm, rfl⟩
+
+theorem plain_app_valid (hc : PlainCls c) (hk : PlainCfg c cfg) :
+    minIvtSize ≤ (appData cfg).length
+    ∧ ¬ (rd32 (appData cfg) 0 = rd32 (appData cfg) 4 ∧ rd32 (appData cfg) 4 = rd32 (appData cfg) 8) := by
+  have h := plain_forM_ok _ _ hk.hval _ (plain_app_mem hc)
+  unfold validateMixin at h
+  simp only [provider] at h
+  split at h
+  · exact absurd h (by simp)
+  · split at h
+    · exact absurd h (by simp)
+    · rename_i h1 h2
+      exact ⟨by simp only [minAppSize] at h1; simp only [minIvtSize]; omega, h2⟩
+
+
+/-- the updated application, the relocation table and the whole unsigned image (word 0x28 = `K`) -/
+def plainU (c : Cls) (cfg : Cfg) (K : Nat) : Bytes := updateIvt c cfg (appData cfg) (totalLen c cfg).toNat K
+def plainR (cfg : Cfg) : Bytes :=
+  match cfg.reloc with
+  | some es => relocExport es (appData cfg).length
+  | none => []
+def plainImg (c : Cls) (cfg : Cfg) (K : Nat) : Bytes := plainU c cfg K ++ plainR cfg ++ cfg.tz.bytes
+
+theorem plainU_length (hc : PlainCls c) (hk : PlainCfg c cfg) (K : Nat) : (plainU c cfg K).length = (appData cfg).length :=
+  updateIvt_length c cfg _ _ _ (plain_app_valid hc hk).1
+
+theorem plain_collectApp (hc : PlainCls c) (hk : PlainCfg c cfg) :
+    collectApp c cfg = .ok (plainU c cfg 0 ++ plainR cfg) := by
+  have hlen := (plain_app_valid hc hk).1
+  have hne : (appData cfg).isEmpty = false := by
+    cases h : appData cfg with
+    | nil => rw [h] at hlen; simp [minIvtSize] at hlen
+    | cons a l => rfl
+  have htab : (if c.hasAttr .app_table = true then cfg.reloc else none) = cfg.reloc := by
+    rw [hc.happTable]
+    cases hr : c.has .Mbi_MixinRelocTable
+    · simp [plain_reloc_none hk hr]
+    · simp
+  unfold collectApp
+  simp only [hne, hc.hivt, hc.hbca, hc.hfcf, Bool.false_and, Bool.or_self, Bool.false_eq_true, if_false, if_true, htab]
+  unfold plainR
+  cases hr : cfg.reloc with
+  | none => simp [plainU]
+  | some es => simp only [plainU, updateIvt_length c cfg _ _ _ hlen]
+
+theorem plain_collect (hc : PlainCls c) (hk : PlainCfg c cfg) : collect c cfg = .ok (plainImg c cfg 0) := by
+  unfold collect plainImg
+  rcases hc.hcoll with ⟨h1, h2⟩ | ⟨h1, h2⟩
+  · rw [h1]
+    simp only [plain_collectApp hc hk, plain_tz_nil hk h2, List.append_nil]
+  · rw [h1]
+    simp only [collectAppTz, plain_collectApp hc hk, bind, Except.bind, pure, Except.pure]
+
+
+theorem plainR_length (c : Cls) (cfg : Cfg) : (plainR cfg).length = relocLen c cfg := by
+  unfold plainR relocLen
+  cases cfg.reloc with
+  | none => rfl
+  | some es => exact relocExport_length_indep es _ _
+
+theorem plainImg_length (hc : PlainCls c) (hk : PlainCfg c cfg) (K : Nat) :
+    ((plainImg c cfg K).length : Int) = totalLen c cfg := by
+  rw [plain_totalLen hc hk]
+  unfold plainImg
+  simp only [List.length_append, plainU_length hc hk, plainR_length c cfg]
+
+theorem plainImg_length' (hc : PlainCls c) (hk : PlainCfg c cfg) (K : Nat) :
+    (plainImg c cfg K).length = (totalLen c cfg).toNat := by
+  rw [← plainImg_length hc hk K]; simp
+
+theorem plain_setAt_mid (P W S w : Bytes) (hW : W.length = w.length) :
+    setAt (P ++ W ++ S) P.length w = P ++ w ++ S := by
+  unfold setAt
+  have h1 : (P ++ W ++ S).take P.length = P := by
+    rw [List.append_assoc, List.take_append_of_le_length (Nat.le_refl _), List.take_length]
+  have h2 : (P ++ W ++ S).drop (P.length + w.length) = S := by
+    rw [← hW, ← List.length_append, List.drop_append_of_le_length (Nat.le_refl _), List.drop_length, List.nil_append]
+  rw [h1, h2]
+
+
+
+def plainHead (c : Cls) (cfg : Cfg) : Bytes :=
+  (appData cfg).take 32 ++ le32 (if c.zeroTotalLength then 0 else (totalLen c cfg).toNat) ++ le32 (flagsOf c cfg)
+def plainTail (c : Cls) (cfg : Cfg) : Bytes :=
+  slice (appData cfg) 44 52 ++ le32 (if c.hasAttr .load_address then cfg.loadAddress else 0) ++ (appData cfg).drop 56
+    ++ plainR cfg ++ cfg.tz.bytes
+
+theorem plainImg_split (hc : PlainCls c) (hk : PlainCfg c cfg) (K : Nat) :
+    plainImg c cfg K = plainHead c cfg ++ le32 (if c.imageType = 0 then 0 else K) ++ plainTail c cfg := by
+  unfold plainImg plainU plainHead plainTail
+  rw [updateIvt_eq c cfg _ _ _ (plain_app_valid hc hk).1]
+  simp only [List.append_assoc]
+
+theorem plainHead_length (hc : PlainCls c) (hk : PlainCfg c cfg) : (plainHead c cfg).length = 40 := by
+  have := (plain_app_valid hc hk).1
+  simp only [minIvtSize] at this
+  unfold plainHead
+  simp only [List.length_append, le32_length, List.length_take]
+  omega
+
+theorem plainImg_take (hc : PlainCls c) (hk : PlainCfg c cfg) (K : Nat) :
+    (plainImg c cfg K).take 40 = plainHead c cfg := by
+  rw [plainImg_split hc hk, List.append_assoc, ← plainHead_length hc hk,
+    List.take_append_of_le_length (Nat.le_refl _), List.take_length]
+
+theorem plainImg_drop (hc : PlainCls c) (hk : PlainCfg c cfg) (K : Nat) :
+    (plainImg c cfg K).drop 44 = plainTail c cfg := by
+  rw [plainImg_split hc hk]
+  have : 44 = (plainHead c cfg ++ le32 (if c.imageType = 0 then 0 else K)).length := by
+    simp [plainHead_length hc hk, le32_length]
+  rw [this, List.drop_append_of_le_length (Nat.le_refl _), List.drop_length, List.nil_append]
+
+theorem plain_crcSign (hc : PlainCls c) (hk : PlainCfg c cfg) (ht : c.imageType ≠ 0) :
+    crcSign (plainImg c cfg 0) = plainImg c cfg (crc32m (plainHead c cfg ++ plainTail c cfg)) := by
+  unfold crcSign
+  simp only [ivtCrcCertificateOffset]
+  rw [plainImg_take hc hk, plainImg_drop hc hk, plainImg_split hc hk, plainImg_split hc hk]
+  simp only [ht, if_false]
+  have := plain_setAt_mid (plainHead c cfg) (le32 0) (plainTail c cfg) (le32 (crc32m (plainHead c cfg ++ plainTail c cfg)))
+    (by simp [le32_length])
+  rw [plainHead_length hc hk] at this
+  simpa using this
+
+
+
+def plainK (c : Cls) (cfg : Cfg) : Nat :=
+  if c.signKind = .crc then crc32m (plainHead c cfg ++ plainTail c cfg) else 0
+
+theorem plainImg_ne_nil (hc : PlainCls c) (hk : PlainCfg c cfg) (K : Nat) : (plainImg c cfg K).isEmpty = false := by
+  have h := plainImg_take hc hk K
+  have h2 := plainHead_length hc hk
+  cases hi : plainImg c cfg K with
+  | nil => rw [hi] at h; simp only [List.take_nil] at h; rw [← h] at h2; simp at h2
+  | cons a l => rfl
+
+theorem plain_export (hc : PlainCls c) (hk : PlainCfg c cfg) (signer : Signer) :
+    exportImage co c cfg signer = .ok (plainImg c cfg (plainK c cfg)) := by
+  unfold exportImage
+  simp only [hk.hval, hk.hpack, plain_collect hc hk, bind, Except.bind, encryptStage, hc.henc, postEncryptStage,
+    hc.hpenc, finalizeStage, hc.hfin]
+  unfold signStage plainK
+  rcases hc.hsign with hs | hs
+  · rw [hs]; simp
+  · rw [hs]
+    simp only [plainImg_ne_nil hc hk, Bool.false_eq_true, if_false, if_true]
+    rw [plain_crcSign hc hk (hc.hcrc.mp hs)]
+
+
+theorem plain_bitStep_lt (x : Nat) : Crc.bitStep Crc.crc32Mpeg2 x < 2 ^ 32 := by
+  unfold Crc.bitStep
+  have hw : Crc.crc32Mpeg2.width = 32 := rfl
+  have hp : Crc.crc32Mpeg2.poly < 2 ^ 32 := by decide
+  simp only [hw]
+  split
+  · exact Nat.xor_lt_two_pow (Nat.mod_lt _ (by decide)) hp
+  · exact Nat.mod_lt _ (by decide)
+
+theorem plain_register_lt (d : Bytes) : Crc.register Crc.crc32Mpeg2 d < 2 ^ 32 := by
+  unfold Crc.register
+  have : ∀ (l : Bytes) (x : Nat), x < 2 ^ 32 → List.foldl (Crc.byteStep Crc.crc32Mpeg2) x l < 2 ^ 32 := by
+    intro l
+    induction l with
+    | nil => intro x hx; simpa using hx
+    | cons a l ih =>
+      intro x _
+      simp only [List.foldl_cons]
+      apply ih
+      unfold Crc.byteStep
+      exact plain_bitStep_lt _
+  exact this d _ (by decide)
+
+theorem plain_crc32m_lt (d : Bytes) : crc32m d < 2 ^ 32 := by
+  unfold crc32m Crc.crc
+  have h1 : Crc.crc32Mpeg2.refOut = false := rfl
+  have h2 : Crc.crc32Mpeg2.xorOut = 0 := rfl
+  simp only [h1, h2, Bool.false_eq_true, if_false, Nat.xor_zero]
+  exact plain_register_lt d
+
+theorem plainK_lt (c : Cls) (cfg : Cfg) : plainK c cfg < 2 ^ 32 := by
+  unfold plainK
+  split
+  · exact plain_crc32m_lt _
+  · decide
+
+theorem plain_total_lt (hk : PlainCfg c cfg) : (totalLen c cfg).toNat < 2 ^ 32 := by
+  have h := hk.hpack
+  unfold packGuard at h
+  split at h
+  · exact absurd h (by simp)
+  · rename_i hn
+    simp only [not_or] at hn
+    have := hn.2.1
+    have := hn.1
+    simp only [encIvtCopySize, encIvSize] at *
+    omega
+
+/-- the four IVT words of an image that starts with the updated application -/
+theorem plainU_words (hc : PlainCls c) (hk : PlainCfg c cfg) (K : Nat) (hK : K < 2 ^ 32) (rest : Bytes) :
+    rd32 (plainU c cfg K ++ rest) ivtImageLengthOffset = (if c.zeroTotalLength then 0 else (totalLen c cfg).toNat)
+    ∧ rd32 (plainU c cfg K ++ rest) ivtImageFlagsOffset = flagsOf c cfg
+    ∧ rd32 (plainU c cfg K ++ rest) ivtCrcCertificateOffset = (if c.imageType = 0 then 0 else K)
+    ∧ rd32 (plainU c cfg K ++ rest) ivtLoadAddrOffset = (if c.has .Mbi_MixinLoadAddress then cfg.loadAddress else 0) := by
+  have hA := (plain_app_valid hc hk).1
+  have hw := updateIvt_words c cfg (appData cfg) (totalLen c cfg).toNat K hA hk.hflags (plain_total_lt hk) hK hk.hla
+  simp only [hc.hla] at hw
+  unfold plainU
+  rw [rd32_updateIvt_append _ _ _ _ _ _ _ hA (by decide), rd32_updateIvt_append _ _ _ _ _ _ _ hA (by decide),
+    rd32_updateIvt_append _ _ _ _ _ _ _ hA (by decide), rd32_updateIvt_append _ _ _ _ _ _ _ hA (by decide)]
+  exact hw
+
+/-- the four IVT words of the exported image -/
+theorem plainImg_words (hc : PlainCls c) (hk : PlainCfg c cfg) (K : Nat) (hK : K < 2 ^ 32) :
+    rd32 (plainImg c cfg K) ivtImageLengthOffset = (if c.zeroTotalLength then 0 else (totalLen c cfg).toNat)
+    ∧ rd32 (plainImg c cfg K) ivtImageFlagsOffset = flagsOf c cfg
+    ∧ rd32 (plainImg c cfg K) ivtCrcCertificateOffset = (if c.imageType = 0 then 0 else K)
+    ∧ rd32 (plainImg c cfg K) ivtLoadAddrOffset = (if c.has .Mbi_MixinLoadAddress then cfg.loadAddress else 0) := by
+  unfold plainImg
+  rw [List.append_assoc]
+  exact plainU_words hc hk K hK _
+
+theorem plain_flagsIn (hc : PlainCls c) (hk : PlainCfg c cfg) (K : Nat) (hK : K < 2 ^ 32) :
+    flagsIn (plainImg c cfg K) = flagsOf c cfg := (plainImg_words hc hk K hK).2.1
+
+theorem plain_imgVer_le (hk : PlainCfg c cfg) : cfg.imageVersion ≤ imgVerMask := by
+  have := hk.hiv; simp only [imgVerMask]; omega
+
+theorem plain_tzTag_le (cfg : Cfg) : cfg.tz.tag ≤ tzTypeMask := by
+  cases cfg.tz <;> simp [TzCfg.tag, tzTypeMask, tzEnabled, tzCustom, tzDisabled]
+
+/-- the fields of the flag word of the image -/
+theorem plain_flag_fields (hc : PlainCls c) (hk : PlainCfg c cfg) :
+    getTzType (flagsOf c cfg) = (if c.hasTrustZone then cfg.tz.tag else 0)
+    ∧ getSubType (flagsOf c cfg) = (if c.has .Mbi_MixinImageSubType then cfg.subType else 0)
+    ∧ getHwKeyEnabled (flagsOf c cfg) = (c.has .Mbi_MixinHwKey && cfg.hwKey)
+    ∧ getKeyStorePresented (flagsOf c cfg) = false
+    ∧ getAppTablePresented (flagsOf c cfg) = cfg.reloc.isSome
+    ∧ getImageVersion (flagsOf c cfg) = (if c.has .Mbi_MixinImageVersion then cfg.imageVersion else 0) := by
+  have h := flags_fields c.imageType cfg.tz.tag cfg.subType cfg.imageVersion
+    0
+    c.hasTrustZone (c.hasAttr .image_subtype) (c.hasAttr .user_hw_key_enabled) cfg.hwKey (c.hasAttr .key_store)
+    (none : Option Bytes).isSome (c.hasAttr .app_table) cfg.reloc.isSome (c.hasAttr .image_version)
+    (c.hasAttr .image_version_to_image_type) true hc.himgType (plain_tzTag_le cfg) hk.hst (plain_imgVer_le hk)
+  obtain ⟨_, h2, h3, h4, h5, h6, h7, _⟩ := h
+  unfold flagsOf
+  rw [hk.hks]
+  refine ⟨h2, ?_, ?_, ?_, ?_, ?_⟩
+  · rw [h3, hc.hsub]
+  · rw [h4, hc.hhw]
+  · rw [h5, hc.hks]; rfl
+  · rw [h6, hc.happTable]
+    cases hr : c.has .Mbi_MixinRelocTable
+    · simp [plain_reloc_none hk hr]
+    · simp
+  · rw [h7, hc.hver, hc.hv2t]; simp
+
+
+theorem plain_dropTz (c : Cls) (cfg : Cfg) (K : Nat) (p : Parsed) (hp : p.tz = cfg.tz) :
+    (if p.tz.bytes.length = 0 then plainImg c cfg K else dropLast (plainImg c cfg K) p.tz.bytes.length)
+      = plainU c cfg K ++ plainR cfg := by
+  unfold plainImg
+  rw [hp]
+  split
+  · rename_i h0
+    rw [List.length_eq_zero_iff.mp h0, List.append_nil]
+  · unfold dropLast
+    rw [List.length_append, Nat.add_sub_cancel, List.take_append_of_le_length (Nat.le_refl _), List.take_length]
+
+theorem plain_disApp (hc : PlainCls c) (hk : PlainCfg c cfg) (K : Nat) (hK : K < 2 ^ 32) (p : Parsed)
+    (hr : p.reloc = none) :
+    disassemblyAppData c p (plainU c cfg K ++ plainR cfg)
+      = .ok ({ p with reloc := if c.has .Mbi_MixinRelocTable then cfg.reloc else none }, plainU c cfg K) := by
+  have hfl : flagsIn (plainU c cfg K ++ plainR cfg) = flagsOf c cfg := (plainU_words hc hk K hK _).2.1
+  unfold disassemblyAppData
+  rw [hc.hdis, hfl, (plain_flag_fields hc hk).2.2.2.2.1]
+  cases hrt : c.has .Mbi_MixinRelocTable
+  · have hn := plain_reloc_none hk hrt
+    simp only [Bool.false_eq_true, if_false]
+    unfold plainR
+    rw [hn]
+    simp [← hr]
+  · simp only [if_true]
+    cases hcr : cfg.reloc with
+    | none =>
+      unfold plainR
+      rw [hcr]
+      simp
+    | some es =>
+      obtain ⟨hok, _, hne⟩ := hk.hreloc es hcr
+      have hlen : (plainU c cfg K).length + (relocExport es (plainU c cfg K).length).length < 2 ^ 32 := by
+        have h1 := plain_total_lt hk
+        have h2 := plain_totalLen hc hk
+        have h3 := plainR_length c cfg
+        rw [plainU_length hc hk]
+        unfold plainR at h3; rw [hcr] at h3; simp only at h3
+        rw [h3]
+        omega
+      have hrt' := reloc_roundtrip (plainU c cfg K) es hne hok hlen
+      unfold plainR
+      rw [hcr]
+      simp only [Option.isSome_some, not_true_eq_false, if_false]
+      rw [← plainU_length hc hk K, hrt']
+      simp
+
+
+theorem plain_disassemble (hc : PlainCls c) (hk : PlainCfg c cfg) (K : Nat) (hK : K < 2 ^ 32) (dek : Option Bytes)
+    (p : Parsed) (hp : p.tz = cfg.tz) (hr : p.reloc = none) :
+    disassemble c p (plainImg c cfg K)
+      = .ok { p with app := (canon c cfg dek).app, reloc := (canon c cfg dek).reloc } := by
+  have hA := (plain_app_valid hc hk).1
+  have hcl : cleanIvt (plainU c cfg K) = cleanIvt (appData cfg) := cleanIvt_updateIvt c cfg _ _ _ hA
+  unfold disassemble
+  rw [hc.hdisasm]
+  rcases hc.hcoll with ⟨h1, h2⟩ | ⟨h1, h2⟩
+  · rw [h1]
+    have himg : plainImg c cfg K = plainU c cfg K ++ plainR cfg := by
+      unfold plainImg; rw [plain_tz_nil hk h2, List.append_nil]
+    simp only [himg, plain_disApp hc hk K hK p hr, bind, Except.bind, pure, Except.pure, hc.hclean, if_true, hcl, canon]
+  · rw [h1]
+    simp only [plain_dropTz c cfg K p hp, plain_disApp hc hk K hK p hr, bind, Except.bind, pure, Except.pure, hc.hclean,
+      if_true, hcl, canon]
+
+
+/-! ### the parse order of a class without certificate block is the class order -/
+
+theorem plain_mustWait (hc : PlainCls c) (d : Bool) (m : MixinName) : mustWait c d m = false := by
+  unfold mustWait
+  rw [List.any_eq_false]
+  intro a ha
+  have : a = .cert_block := by
+    revert ha; cases m <;> simp [preParsed]
+  subst this
+  simp [hc.hcert]
+
+theorem plain_parseRound (hc : PlainCls c) : ∀ (l : List MixinName) (d : Bool), ∃ d', parseRound c l d = (l, [], d')
+  | [], d => ⟨d, rfl⟩
+  | m :: ms, d => by
+    obtain ⟨d', hd⟩ := plain_parseRound hc ms (d || setsCert m)
+    refine ⟨d', ?_⟩
+    simp only [parseRound, plain_mustWait hc, Bool.false_eq_true, if_false, hd]
+
+theorem plain_parseOrder (hc : PlainCls c) : parseOrder c = some c.dataMixins := by
+  unfold parseOrder
+  generalize c.dataMixins.length = n
+  cases hl : c.dataMixins with
+  | nil => simp
+  | cons m ms =>
+    obtain ⟨d', hd⟩ := plain_parseRound hc (m :: ms) false
+    simp only [parseOrderF, hd]
+    cases n <;> simp [parseOrderF]
+
+
+/-! ### one `mix_parse` call on the exported image -/
+
+/-- what the `mix_parse` of mixin `m` writes (plain family) -/
+def plainUpd (c : Cls) (cfg : Cfg) (m : MixinName) (p : Parsed) : Parsed :=
+  match provider m .mix_parse with
+  | some .Mbi_MixinTrustZone => { p with tz := cfg.tz }
+  | some .Mbi_MixinLoadAddress => { p with loadAddress := if c.has .Mbi_MixinLoadAddress then cfg.loadAddress else 0 }
+  | some .Mbi_MixinImageVersion => { p with imageVersion := if c.has .Mbi_MixinImageVersion then cfg.imageVersion else 0 }
+  | some .Mbi_MixinImageSubType => { p with subType := if c.has .Mbi_MixinImageSubType then cfg.subType else 0 }
+  | some .Mbi_MixinHwKey => { p with hwKey := c.has .Mbi_MixinHwKey && cfg.hwKey }
+  | _ => p
+
+theorem plain_excl_attr {m : MixinName} (hm : m ∈ c.mixins) (a : Attr) (hd : (attrs m).contains a = true)
+    (ha : c.hasAttr a = false) : False := by
+  have : c.hasAttr a = true := by
+    unfold Cls.hasAttr; rw [List.any_eq_true]; exact ⟨m, hm, hd⟩
+  rw [ha] at this; exact absurd this (by simp)
+
+theorem plain_excl_has {m : MixinName} (hm : m ∈ c.mixins) (base : MixinName) (hd : derivesFrom m base = true)
+    (hb : c.has base = false) : False := by
+  have : c.has base = true := by
+    unfold Cls.has; rw [List.any_eq_true]; exact ⟨m, hm, hd⟩
+  rw [hb] at this; exact absurd this (by simp)
+
+theorem plain_lastN (X T : Bytes) : lastN (X ++ T) T.length = T := by
+  unfold lastN
+  rw [List.length_append, Nat.add_sub_cancel, List.drop_append_of_le_length (Nat.le_refl _), List.drop_length,
+    List.nil_append]
+
+theorem plain_parseTz (hc : PlainCls c) (hk : PlainCfg c cfg) (K : Nat) (p : Parsed)
+    (htz : c.has .Mbi_MixinTrustZone = true) :
+    (let t := getTzType (flagsOf c cfg)
+     if t ≠ tzEnabled ∧ t ≠ tzCustom ∧ t ≠ tzDisabled then (.error .spsdk : PyRes Parsed)
+     else if t = tzCustom then
+       (do let tz ← tzFromBinary c (lastN (plainImg c cfg K) c.tzSize)
+           pure { p with tz := tz })
+     else .ok { p with tz := if t = tzEnabled then .enabled else .disabled }) = .ok { p with tz := cfg.tz } := by
+  have ht : getTzType (flagsOf c cfg) = cfg.tz.tag := by
+    rw [(plain_flag_fields hc hk).1, plain_hasTrustZone, htz]; rfl
+  simp only [ht]
+  cases htzc : cfg.tz with
+  | disabled => simp [TzCfg.tag, tzEnabled, tzCustom, tzDisabled]
+  | enabled => simp [TzCfg.tag, tzEnabled, tzCustom, tzDisabled]
+  | custom d =>
+    obtain ⟨hd, _⟩ := hk.htz d htzc
+    have hl : lastN (plainImg c cfg K) c.tzSize = d := by
+      unfold plainImg; rw [htzc, ← hd]; exact plain_lastN _ _
+    simp only [TzCfg.tag, tzEnabled, tzCustom, tzDisabled, hl, tzFromBinary, hd]
+    simp [bind, Except.bind, pure, Except.pure, ← hd]
+
+
+theorem plain_mixParse (hc : PlainCls c) (hk : PlainCfg c cfg) (K : Nat) (hK : K < 2 ^ 32) (dek : Option Bytes)
+    (p : Parsed) {m : MixinName} (hm : m ∈ c.mixins) :
+    mixParse env c dek (plainImg c cfg K) p m = .ok (plainUpd c cfg m p) := by
+  have hfl := plain_flagsIn hc hk K hK
+  obtain ⟨f1, f2, f3, f4, f5, f6⟩ := plain_flag_fields hc hk
+  have hw := plainImg_words hc hk K hK
+  unfold mixParse plainUpd
+  simp only [hfl]
+  generalize hprov : provider m .mix_parse = o
+  rcases o with _ | d
+  · rfl
+  · cases d
+    case Mbi_MixinTrustZone =>
+      have htz : c.has .Mbi_MixinTrustZone = true := by
+        cases hb : c.has .Mbi_MixinTrustZone
+        · exact (plain_excl_has hm .Mbi_MixinTrustZone (by revert hprov; cases m <;> decide) hb).elim
+        · rfl
+      simp only [hc.hcert, Bool.false_eq_true, if_false]
+      exact plain_parseTz hc hk K p htz
+    case Mbi_MixinLoadAddress => simp only [hw.2.2.2]
+    case Mbi_MixinImageVersion => simp only [f6]
+    case Mbi_MixinImageSubType => simp only [f2]
+    case Mbi_MixinHwKey => simp only [f3]
+    case Mbi_MixinKeyStore =>
+      exact (plain_excl_has hm .Mbi_MixinKeyStore (by revert hprov; cases m <;> decide) hc.hnoKs).elim
+    case Mbi_MixinHmac =>
+      exact (plain_excl_has hm .Mbi_MixinHmac (by revert hprov; cases m <;> decide) hc.hnoHmac).elim
+    case Mbi_MixinCtrInitVector =>
+      exact (plain_excl_has hm .Mbi_MixinCtrInitVector (by revert hprov; cases m <;> decide) hc.hnoCtr).elim
+    case Mbi_MixinCertBlockV1 =>
+      exact (plain_excl_attr hm .cert_block (by revert hprov; cases m <;> decide) hc.hcert).elim
+    case Mbi_MixinCertBlockV21 =>
+      exact (plain_excl_attr hm .cert_block (by revert hprov; cases m <;> decide) hc.hcert).elim
+    case Mbi_MixinManifest =>
+      exact (plain_excl_attr hm .cert_block (by revert hprov; cases m <;> decide) hc.hcert).elim
+    case Mbi_MixinBca =>
+      exact (plain_excl_attr hm .bca (by revert hprov; cases m <;> decide) hc.hbca).elim
+    case Mbi_MixinFcf =>
+      exact (plain_excl_attr hm .fcf (by revert hprov; cases m <;> decide) hc.hfcf).elim
+    all_goals rfl
+
+
+theorem plain_foldlM (hc : PlainCls c) (hk : PlainCfg c cfg) (K : Nat) (hK : K < 2 ^ 32) (dek : Option Bytes) :
+    ∀ (l : List MixinName) (p : Parsed), (∀ m ∈ l, m ∈ c.mixins) →
+      l.foldlM (mixParse env c dek (plainImg c cfg K)) p = .ok (l.foldl (fun q m => plainUpd c cfg m q) p)
+  | [], p, _ => rfl
+  | m :: ms, p, hl => by
+    rw [List.foldlM_cons, plain_mixParse hc hk K hK dek p (hl m (List.mem_cons_self ..))]
+    simp only [bind, Except.bind, List.foldl_cons]
+    exact plain_foldlM hc hk K hK dek ms _ (fun x hx => hl x (List.mem_cons_of_mem _ hx))
+
+def plainIs (d : MixinName) (m : MixinName) : Bool := provider m .mix_parse == some d
+
+/-- closed form of a run of `plainUpd` -/
+theorem plain_foldl_upd (c : Cls) (cfg : Cfg) : ∀ (l : List MixinName) (p : Parsed),
+    l.foldl (fun q m => plainUpd c cfg m q) p
+      = { p with
+          tz := if l.any (plainIs .Mbi_MixinTrustZone) then cfg.tz else p.tz
+          loadAddress := if l.any (plainIs .Mbi_MixinLoadAddress)
+            then (if c.has .Mbi_MixinLoadAddress then cfg.loadAddress else 0) else p.loadAddress
+          imageVersion := if l.any (plainIs .Mbi_MixinImageVersion)
+            then (if c.has .Mbi_MixinImageVersion then cfg.imageVersion else 0) else p.imageVersion
+          subType := if l.any (plainIs .Mbi_MixinImageSubType)
+            then (if c.has .Mbi_MixinImageSubType then cfg.subType else 0) else p.subType
+          hwKey := if l.any (plainIs .Mbi_MixinHwKey) then (c.has .Mbi_MixinHwKey && cfg.hwKey) else p.hwKey }
+  | [], p => by simp
+  | m :: ms, p => by
+    rw [List.foldl_cons, plain_foldl_upd c cfg ms]
+    unfold plainUpd
+    generalize hprov : provider m .mix_parse = o
+    have hi : ∀ d, plainIs d m = (o == some d) := by intro d; unfold plainIs; rw [hprov]
+    simp only [List.any_cons, hi]
+    rcases o with _ | d
+    · simp
+    · cases d <;> simp <;> (try split) <;> rfl
+
+
+theorem plain_cover (hc : PlainCls c) (base d : MixinName)
+    (hd : ∀ m, derivesFrom m base = true → (attrs m).contains .cert_block = false →
+      isData m = true ∧ provider m .mix_parse = some d)
+    (hb : c.has base = true) : c.dataMixins.any (plainIs d) = true := by
+  unfold Cls.has at hb
+  rw [List.any_eq_true] at hb ⊢
+  obtain ⟨m, hm, hder⟩ := hb
+  have hnc : (attrs m).contains .cert_block = false := by
+    cases hx : (attrs m).contains .cert_block
+    · rfl
+    · exact (plain_excl_attr hm .cert_block hx hc.hcert).elim
+  obtain ⟨h1, h2⟩ := hd m hder hnc
+  refine ⟨m, ?_, ?_⟩
+  · unfold Cls.dataMixins; exact List.mem_filter.mpr ⟨hm, h1⟩
+  · unfold plainIs; rw [h2]; simp
+
+/-- everything the mixins parse (the application and the relocation table come from `disassemble_image`) -/
+theorem plain_mixParseAll (hc : PlainCls c) (hk : PlainCfg c cfg) (K : Nat) (hK : K < 2 ^ 32) (dek : Option Bytes) :
+    mixParseAll env c dek (plainImg c cfg K) = .ok { canon c cfg dek with app := none, reloc := none } := by
+  unfold mixParseAll
+  rw [plain_parseOrder hc]
+  simp only []
+  rw [plain_foldlM hc hk K hK dek c.dataMixins {} (fun m (hm : m ∈ c.dataMixins) => (List.mem_filter.mp hm).1),
+    plain_foldl_upd]
+  have hV1 : c.has .Mbi_MixinCertBlockV1 = false :=
+    plain_has_false_of_hasAttr .Mbi_MixinCertBlockV1 .cert_block (by intro m; cases m <;> decide) hc.hcert
+  have hV21 : c.has .Mbi_MixinCertBlockV21 = false :=
+    plain_has_false_of_hasAttr .Mbi_MixinCertBlockV21 .cert_block (by intro m; cases m <;> decide) hc.hcert
+  have hBca : c.has .Mbi_MixinBca = false :=
+    plain_has_false_of_hasAttr .Mbi_MixinBca .bca (by intro m; cases m <;> decide) hc.hbca
+  have hFcf : c.has .Mbi_MixinFcf = false :=
+    plain_has_false_of_hasAttr .Mbi_MixinFcf .fcf (by intro m; cases m <;> decide) hc.hfcf
+  have e1 : (if c.dataMixins.any (plainIs .Mbi_MixinTrustZone) then cfg.tz else TzCfg.enabled)
+      = (if c.hasTrustZone then cfg.tz else .enabled) := by
+    rw [plain_hasTrustZone]
+    cases hb : c.has .Mbi_MixinTrustZone
+    · have := hk.hnotz (by rw [plain_hasTrustZone]; exact hb)
+      simp [this]
+    · rw [plain_cover hc .Mbi_MixinTrustZone .Mbi_MixinTrustZone (by intro m; cases m <;> decide) hb]
+  have e2 : (if c.dataMixins.any (plainIs .Mbi_MixinLoadAddress)
+      then (if c.has .Mbi_MixinLoadAddress then cfg.loadAddress else 0) else 0)
+      = (if c.has .Mbi_MixinLoadAddress then cfg.loadAddress else 0) := by
+    cases hb : c.has .Mbi_MixinLoadAddress
+    · simp
+    · rw [plain_cover hc .Mbi_MixinLoadAddress .Mbi_MixinLoadAddress (by intro m; cases m <;> decide) hb]; simp
+  have e3 : (if c.dataMixins.any (plainIs .Mbi_MixinImageVersion)
+      then (if c.has .Mbi_MixinImageVersion then cfg.imageVersion else 0) else 0)
+      = (if c.has .Mbi_MixinImageVersion then cfg.imageVersion else 0) := by
+    cases hb : c.has .Mbi_MixinImageVersion
+    · simp
+    · rw [plain_cover hc .Mbi_MixinImageVersion .Mbi_MixinImageVersion (by intro m; cases m <;> decide) hb]; simp
+  have e4 : (if c.dataMixins.any (plainIs .Mbi_MixinImageSubType)
+      then (if c.has .Mbi_MixinImageSubType then cfg.subType else 0) else 0)
+      = (if c.has .Mbi_MixinImageSubType then cfg.subType else 0) := by
+    cases hb : c.has .Mbi_MixinImageSubType
+    · simp
+    · rw [plain_cover hc .Mbi_MixinImageSubType .Mbi_MixinImageSubType (by intro m; cases m <;> decide) hb]; simp
+  have e5 : (if c.dataMixins.any (plainIs .Mbi_MixinHwKey) then (c.has .Mbi_MixinHwKey && cfg.hwKey) else false)
+      = (c.has .Mbi_MixinHwKey && cfg.hwKey) := by
+    cases hb : c.has .Mbi_MixinHwKey
+    · simp
+    · rw [plain_cover hc .Mbi_MixinHwKey .Mbi_MixinHwKey (by intro m; cases m <;> decide) hb]; simp
+  simp only [e1, e2, e3, e4, e5]
+  simp only [canon, hc.hnoKs, hc.hnoHmac, hc.hnoCtr, hV1, hV21, hc.hmk, hBca, hFcf, Bool.false_eq_true, if_false,
+    Option.isSome_none]
+  simp
+
+
+/-! ### re-export of the parsed image -/
+
+theorem plain_cfg_ext (a b : Cfg) (h1 : a.app = b.app) (h2 : a.loadAddress = b.loadAddress)
+    (h3 : a.imageVersion = b.imageVersion) (h4 : a.subType = b.subType) (h5 : a.tz = b.tz) (h6 : a.hwKey = b.hwKey)
+    (h7 : a.keyStore = b.keyStore) (h8 : a.hmacKey = b.hmacKey) (h9 : a.ctrIv = b.ctrIv) (h10 : a.reloc = b.reloc)
+    (h11 : a.cert = b.cert) (h12 : a.sigLen = b.sigLen) (h13 : a.fwVersion = b.fwVersion) (h14 : a.digest = b.digest)
+    (h15 : a.bca = b.bca) (h16 : a.fcf = b.fcf) : a = b := by
+  cases a; cases b; simp_all
+
+/-- the builder's view of the parsed image: the same settings with the cleaned application -/
+theorem plain_toCfg (hc : PlainCls c) (hk : PlainCfg c cfg) (dek : Option Bytes) :
+    (canon c cfg dek).toCfg = { cfg with app := cleanIvt (appData cfg) } := by
+  have hV1 : c.has .Mbi_MixinCertBlockV1 = false :=
+    plain_has_false_of_hasAttr .Mbi_MixinCertBlockV1 .cert_block (by intro m; cases m <;> decide) hc.hcert
+  have hV21 : c.has .Mbi_MixinCertBlockV21 = false :=
+    plain_has_false_of_hasAttr .Mbi_MixinCertBlockV21 .cert_block (by intro m; cases m <;> decide) hc.hcert
+  have hBca : c.has .Mbi_MixinBca = false :=
+    plain_has_false_of_hasAttr .Mbi_MixinBca .bca (by intro m; cases m <;> decide) hc.hbca
+  have hFcf : c.has .Mbi_MixinFcf = false :=
+    plain_has_false_of_hasAttr .Mbi_MixinFcf .fcf (by intro m; cases m <;> decide) hc.hfcf
+  apply plain_cfg_ext
+  · simp [Parsed.toCfg, canon, hc.hclean]
+  · show (if c.has .Mbi_MixinLoadAddress then cfg.loadAddress else 0) = cfg.loadAddress
+    cases hb : c.has .Mbi_MixinLoadAddress
+    · simp [hk.hnoLa hb]
+    · simp
+  · show (if c.has .Mbi_MixinImageVersion then cfg.imageVersion else 0) = cfg.imageVersion
+    cases hb : c.has .Mbi_MixinImageVersion
+    · simp [hk.hnoIv hb]
+    · simp
+  · show (if c.has .Mbi_MixinImageSubType then cfg.subType else 0) = cfg.subType
+    cases hb : c.has .Mbi_MixinImageSubType
+    · simp [hk.hnoSub hb]
+    · simp
+  · show (if c.hasTrustZone then cfg.tz else .enabled) = cfg.tz
+    cases hb : c.hasTrustZone
+    · simp [hk.hnotz hb]
+    · simp
+  · show (c.has .Mbi_MixinHwKey && cfg.hwKey) = cfg.hwKey
+    cases hb : c.has .Mbi_MixinHwKey
+    · simp [hk.hnoHw hb]
+    · simp
+  · simp [Parsed.toCfg, canon, hc.hnoKs, hk.hks]
+  · simp [Parsed.toCfg, canon, hc.hnoHmac, hk.hhmac]
+  · simp [Parsed.toCfg, canon, hc.hnoCtr, hk.hctr]
+  · show (if c.has .Mbi_MixinRelocTable then cfg.reloc else none) = cfg.reloc
+    cases hb : c.has .Mbi_MixinRelocTable
+    · simp [plain_reloc_none hk hb]
+    · simp
+  · simp [Parsed.toCfg, canon, hV1, hV21, hk.hcert]
+  · simp [Parsed.toCfg, canon, hV1, hV21, hk.hsigLen]
+  · simp [Parsed.toCfg, canon, hc.hmk, hk.hfw]
+  · simp [Parsed.toCfg, canon, hc.hmk, hk.hdigest]
+  · simp [Parsed.toCfg, canon, hBca, hk.hbca]
+  · simp [Parsed.toCfg, canon, hFcf, hk.hfcf]
+
+
+def plainCfg2 (cfg : Cfg) : Cfg := { cfg with app := cleanIvt (appData cfg) }
+
+theorem plain_appData2 (hc : PlainCls c) (hk : PlainCfg c cfg) : appData (plainCfg2 cfg) = cleanIvt (appData cfg) := by
+  show align4 (cleanIvt (appData cfg)) = cleanIvt (appData cfg)
+  apply align4_of_aligned
+  rw [cleanIvt_length _ (plain_app_valid hc hk).1]
+  exact align4_length_mod _
+
+theorem plain_rd32_cleanIvt (A : Bytes) (hA : minIvtSize ≤ A.length) (off : Nat) (ho : off + 4 ≤ 32) :
+    rd32 (cleanIvt A) off = rd32 A off := by
+  have hl : (A.take 32).length = 32 := by
+    simp only [minIvtSize] at hA; simp only [List.length_take]; omega
+  rw [cleanIvt_eq A hA]
+  simp only [List.append_assoc]
+  rw [rd32_append_left _ _ _ (by omega)]
+  conv => rhs; rw [← List.take_append_drop 32 A]
+  rw [rd32_append_left _ _ _ (by omega)]
+
+theorem plain_validateMixin2 (hc : PlainCls c) (hk : PlainCfg c cfg) (m : MixinName) :
+    validateMixin c (plainCfg2 cfg) m = validateMixin c cfg m := by
+  have hA := (plain_app_valid hc hk).1
+  have r0 := plain_rd32_cleanIvt _ hA 0 (by decide)
+  have r4 := plain_rd32_cleanIvt _ hA 4 (by decide)
+  have r8 := plain_rd32_cleanIvt _ hA 8 (by decide)
+  have e1 : (plainCfg2 cfg).tz = cfg.tz := rfl
+  have e2 : (plainCfg2 cfg).reloc = cfg.reloc := rfl
+  have e3 : (plainCfg2 cfg).keyStore = cfg.keyStore := rfl
+  have e4 : (plainCfg2 cfg).hmacKey = cfg.hmacKey := rfl
+  have e5 : (plainCfg2 cfg).ctrIv = cfg.ctrIv := rfl
+  have e6 : (plainCfg2 cfg).fcf = cfg.fcf := rfl
+  unfold validateMixin
+  simp only [plain_appData2 hc hk, r0, r4, r8, cleanIvt_length _ hA, e1, e2, e3, e4, e5, e6]
+
+theorem plain_validate2 (hc : PlainCls c) (hk : PlainCfg c cfg) : validate c (plainCfg2 cfg) = .ok () := by
+  rw [← hk.hval]
+  unfold validate
+  congr 1
+  funext m
+  exact plain_validateMixin2 hc hk m
+
+theorem plain_mixLen2 (hc : PlainCls c) (hk : PlainCfg c cfg) (m : MixinName) :
+    mixLen c (plainCfg2 cfg) m = mixLen c cfg m := by
+  have hA := (plain_app_valid hc hk).1
+  unfold mixLen
+  cases provider m .mix_len with
+  | none => rfl
+  | some d =>
+    simp only
+    unfold mixLenOf
+    simp only [plain_appData2 hc hk, cleanIvt_length _ hA]
+    rfl
+
+theorem plain_totalLen2 (hc : PlainCls c) (hk : PlainCfg c cfg) : totalLen c (plainCfg2 cfg) = totalLen c cfg := by
+  unfold totalLen
+  congr 1
+  apply List.map_congr_left
+  intro m _
+  exact plain_mixLen2 hc hk m
+
+theorem plainCfg_2 (hc : PlainCls c) (hk : PlainCfg c cfg) : PlainCfg c (plainCfg2 cfg) :=
+  { hval := plain_validate2 hc hk
+    hpack := by
+      have := hk.hpack
+      unfold packGuard at this ⊢
+      rw [plain_totalLen2 hc hk]
+      exact this
+    hla := hk.hla, hiv := hk.hiv, hst := hk.hst, hflags := hk.hflags, htz := hk.htz, hnotz := hk.hnotz
+    hreloc := hk.hreloc, hks := hk.hks, hhmac := hk.hhmac, hbca := hk.hbca, hfcf := hk.hfcf, hcert := hk.hcert
+    hsigLen := hk.hsigLen, hdigest := hk.hdigest, hfw := hk.hfw, hnoIv := hk.hnoIv, hnoSub := hk.hnoSub
+    hnoHw := hk.hnoHw, hnoLa := hk.hnoLa, hctr := hk.hctr }
+
+
+theorem plainImg2 (hc : PlainCls c) (hk : PlainCfg c cfg) (K : Nat) : plainImg c (plainCfg2 cfg) K = plainImg c cfg K := by
+  have hA := (plain_app_valid hc hk).1
+  have hU : plainU c (plainCfg2 cfg) K = plainU c cfg K := by
+    unfold plainU
+    rw [plain_totalLen2 hc hk, plain_appData2 hc hk]
+    exact updateIvt_cleanIvt c cfg _ _ _ hA
+  have hR : plainR (plainCfg2 cfg) = plainR cfg := by
+    unfold plainR
+    rw [plain_appData2 hc hk, cleanIvt_length _ hA]
+    rfl
+  unfold plainImg
+  rw [hU, hR]
+  rfl
+
+theorem plainK2 (hc : PlainCls c) (hk : PlainCfg c cfg) : plainK c (plainCfg2 cfg) = plainK c cfg := by
+  have hk2 := plainCfg_2 hc hk
+  unfold plainK
+  rw [← plainImg_take hc hk2 0, ← plainImg_drop hc hk2 0, ← plainImg_take hc hk 0, ← plainImg_drop hc hk 0,
+    plainImg2 hc hk]
+
 theorem disassemble_collect_plain (h : Hyp co env c cfg signer) (hf : c.family = some .plain) (dek : Option Bytes)
     (p : Parsed) (hp : p.tz = cfg.tz) (hcert : p.cert.isSome = c.hasAttr .cert_block) (hr : p.reloc = none) :
     ∃ raw, collect c cfg = .ok raw
       ∧ disassemble c p raw = .ok { p with app := (canon c cfg dek).app, reloc := (canon c cfg dek).reloc } := by
-  sorry
+  have hc := plainCls h.hcls hf
+  have hk := plainCfg hc h.hcfg
+  exact ⟨_, plain_collect hc hk, plain_disassemble hc hk 0 (by decide) dek p hp hr⟩
 
 theorem parse_export_plain (h : Hyp co env c cfg signer) (hf : c.family = some .plain) (dek : Option Bytes) :
     ∃ e, exportImage co c cfg signer = .ok e ∧ parseImage co env c dek e = .ok (canon c cfg dek) := by
-  sorry
+  have hc := plainCls h.hcls hf
+  have hk := plainCfg hc h.hcfg
+  refine ⟨_, plain_export hc hk signer, ?_⟩
+  have hK := plainK_lt c cfg
+  have hsr : ∀ (q : Parsed) (img : Bytes), signRevert c q img = .ok img := by
+    intro q img; unfold signRevert
+    rcases hc.hsign with hs | hs <;> rw [hs]
+  have htz : ({ canon c cfg dek with app := none, reloc := none } : Parsed).tz = cfg.tz := by
+    show (canon c cfg dek).tz = cfg.tz
+    simp only [canon]
+    cases hb : c.hasTrustZone
+    · simp [hk.hnotz hb]
+    · simp
+  unfold parseImage
+  rw [plain_mixParseAll hc hk _ hK dek]
+  simp only [bind, Except.bind, finalizeRevert, hc.hfin, hsr, postEncryptRevert, hc.hpenc, encryptRevert, hc.henc]
+  rw [plain_disassemble hc hk _ hK dek _ htz rfl]
 
 theorem reexport_plain (h : Hyp co env c cfg signer) (hf : c.family = some .plain) (signer' : Signer)
     (hs' : ∀ m, (signer' m).length = cfg.sigLen) (dek : Option Bytes)
     (hdek : c.has .Mbi_MixinHmac = true → dek = cfg.hmacKey) :
     ∃ e e', exportImage co c cfg signer = .ok e ∧ exportImage co c (canon c cfg dek).toCfg signer' = .ok e'
       ∧ eqOutsideSig c cfg e e' := by
-  sorry
+  have hc := plainCls h.hcls hf
+  have hk := plainCfg hc h.hcfg
+  have hk2 := plainCfg_2 hc hk
+  refine ⟨_, plainImg c (plainCfg2 cfg) (plainK c (plainCfg2 cfg)), plain_export hc hk signer, ?_, ?_⟩
+  · rw [plain_toCfg hc hk dek]
+    exact plain_export hc hk2 signer'
+  · have hso : sigOffset c cfg (plainImg c cfg (plainK c cfg)) = none := by
+      unfold sigOffset
+      rcases hc.hsign with hs | hs <;> rw [hs]
+    unfold eqOutsideSig
+    rw [hso]
+    show plainImg c cfg (plainK c cfg) = plainImg c (plainCfg2 cfg) (plainK c (plainCfg2 cfg))
+    rw [plainK2 hc hk, plainImg2 hc hk]
 
 theorem header_describes_plain (h : Hyp co env c cfg signer) (hf : c.family = some .plain) :
     ∃ e, exportImage co c cfg signer = .ok e
@@ -41,12 +980,29 @@ theorem header_describes_plain (h : Hyp co env c cfg signer) (hf : c.family = so
           ∧ (let off := appLen c cfg + (if c.has .Mbi_MixinHmac then hmacSize + (cfg.keyStore.getD []).length else 0)
              slice e off (off + cfg.cert.length)
                = (if c.has .Mbi_MixinCertBlockV1 then certInImage c cfg else cfg.cert))) := by
-  sorry
+  have hc := plainCls h.hcls hf
+  have hk := plainCfg hc h.hcfg
+  refine ⟨_, plain_export hc hk signer, ?_⟩
+  obtain ⟨w1, w2, w3, w4⟩ := plainImg_words hc hk (plainK c cfg) (plainK_lt c cfg)
+  refine ⟨?_, w2, w4, ?_, ?_, ?_⟩
+  · rw [w1, plainImg_length' hc hk]
+  · intro h0; rw [w3, if_pos h0]
+  · intro hs
+    rw [w3, if_neg (hc.hcrc.mp hs)]
+    simp only [ivtCrcCertificateOffset]
+    rw [plainImg_take hc hk, plainImg_drop hc hk]
+    simp [plainK, hs]
+  · intro hcb; rw [hc.hcert] at hcb; exact absurd hcb (by simp)
 
 theorem total_len_sum_plain (h : Hyp co env c cfg signer) (hf : c.family = some .plain) :
     ∃ e, exportImage co c cfg signer = .ok e
       ∧ (e.length : Int) = totalLen c cfg + (if c.signKind = .rsa then cfg.sigLen else 0)
           + (if c.family = some .encrypted then encIvtCopySize + encIvSize else 0) := by
-  sorry
+  have hc := plainCls h.hcls hf
+  have hk := plainCfg hc h.hcfg
+  refine ⟨_, plain_export hc hk signer, ?_⟩
+  rw [plainImg_length hc hk, hf]
+  have : c.signKind ≠ .rsa := by rcases hc.hsign with hs | hs <;> rw [hs] <;> decide
+  simp [this]
 
 end SpsdkVerif.Mbi
